@@ -9,6 +9,7 @@ Effect analysis over the resolved call graph (no code is executed):
       (one byte vector and zero-sized markers), and its update closure stores the complete successor key
   E5  (fast_verify builds) the RNG / thread effects are reachable only with a mutable message:
       constant propagation of `message_mut = None` from `sign` shows them dead for `sign`.
+  E6  the seed's raw container is touched only by the seed type's own methods (everything else sees its first n bytes)
 In safe Rust without statics, interior mutability and without calls that observe the
 environment, a function's results are determined by its arguments: that is the argument.
 """
